@@ -632,3 +632,85 @@ fn c14_headers_block() {
     kani::cover!(PN < 4 || (nlines == 1 && s < PN), "lines after the blank line are ignored");
     std::mem::forget(r);
 }
+
+// @harness props=CXX unwind=30 cap=400 mem=8
+#[kani::proof]
+#[kani::stub(core::slice::memchr::memchr, crate::request::verif_kani::memchr_stub)]
+fn bench_m1() {
+    let mut line = *b"Content-Length: 429496729X";
+    let x: u8 = kani::any();
+    kani::assume(x < 0x80 && x != b':');
+    line[25] = x;
+    let st = unsafe { std::str::from_utf8_unchecked(&line) };
+    let entry = st.splitn(2, ':').collect::<Vec<&str>>();
+    assert!(entry.len() == 2);
+    assert!(entry[0].len() == 14);
+    std::mem::forget(entry);
+}
+
+// @harness props=CXX unwind=30 cap=400 mem=8
+#[kani::proof]
+fn bench_m2() {
+    let mut line = *b" 429496729X";
+    let x: u8 = kani::any();
+    kani::assume(x < 0x80 && x != b':');
+    line[10] = x;
+    let st = unsafe { std::str::from_utf8_unchecked(&line) };
+    let r = st.trim().parse::<u32>();
+    assert!(r.is_ok() == (x >= b'0' && x <= b'5') || x == b' ' || (x >= 9 && x <= 13));
+    std::mem::forget(r);
+}
+
+// @harness props=CXX unwind=30 cap=400 mem=8
+#[kani::proof]
+#[kani::stub(std::str::from_utf8, crate::request::verif_kani::from_utf8_stub)]
+fn bench_m3() {
+    let r = Header::try_from(b"Content-Length");
+    assert!(matches!(r, Ok(Header::ContentLength)));
+    std::mem::forget(r);
+}
+
+// @harness props=CXX unwind=30 cap=600 mem=8
+#[kani::proof]
+#[kani::stub(std::str::from_utf8, crate::request::verif_kani::from_utf8_stub)]
+#[kani::stub(core::slice::memchr::memchr, crate::request::verif_kani::memchr_stub)]
+fn bench_cl_1() {
+    let mut line = *b"Content-Length: 429496729X";
+    let x: u8 = kani::any();
+    kani::assume(x < 0x80 && x != b':');
+    line[25] = x;
+    let mut h = Headers::default();
+    let r = h.parse_header_line(&line);
+    assert!(r.is_ok() == (x >= b'0' && x <= b'5'));
+    std::mem::forget(r);
+    std::mem::forget(h);
+}
+
+// @harness props=CXX unwind=30 cap=500 mem=8
+#[kani::proof]
+#[kani::stub(core::slice::memchr::memchr, crate::request::verif_kani::memchr_stub)]
+fn bench_cl_2() {
+    let mut line = *b"Content-Length: 429496729X";
+    let x: u8 = kani::any();
+    kani::assume(x < 0x80 && x != b':');
+    line[25] = x;
+    let mut h = Headers::default();
+    let r = h.parse_header_line(&line);
+    assert!(r.is_ok() == (x >= b'0' && x <= b'5'));
+    std::mem::forget(r);
+    std::mem::forget(h);
+}
+
+// @harness props=CXX unwind=30 cap=500 mem=8
+#[kani::proof]
+fn bench_cl_3() {
+    let mut line = *b"Content-Length: 429496729X";
+    let x: u8 = kani::any();
+    kani::assume(x < 0x80 && x != b':');
+    line[25] = x;
+    let mut h = Headers::default();
+    let r = h.parse_header_line(&line);
+    assert!(r.is_ok() == (x >= b'0' && x <= b'5'));
+    std::mem::forget(r);
+    std::mem::forget(h);
+}
